@@ -14,6 +14,87 @@ TB = ("Trusted: Coq 8.16.1 kernel + VM (vm_compute, no native_compute), no "
       "CPython 3.12. ")
 
 CHECKS = {
+    "C01": dict(
+        text="Theorems over an executable model of Application.__request__ "
+             "(every try/except explicit, user callables as data): for every "
+             "hook/handler configuration and request no exception escapes; "
+             "start_response is called exactly once, or not at all with an "
+             "empty iterable and then only for a connection-level error or a "
+             "declined request; status is a registered code and headers are "
+             "latin-1 (generic invariant theorem over all paths). "
+             "Correspondence on random scenarios (trace and answer) + PEP "
+             "3333 oracle over hostile environs x handler programs x "
+             "configuration.",
+        design="7/C01",
+        note="Routing leaf, request construction outcome and reason phrases "
+             "are inputs of the model; user callables are plain functions; "
+             "responses are fresh; generators yield bytes and are finite; "
+             "wall-clock bound is only checked by the monitor; known finding "
+             "surrogate-content-type-escapes (model deviates there, see "
+             "model/Dispatch.v mk_ctype).",
+        technique="Coq proof (case analysis over the exception ladder, "
+                  "invariant over all paths) + vm_compute correspondence"),
+    "C03": dict(
+        text="Theorems: for hook lists of any length the before hooks that "
+             "run are exactly hooks 0..k in order (k = first stopping hook), "
+             "the endpoint runs iff none stopped, the same for 404/405/"
+             "built-in leaves; the after loop feeds each hook the previous "
+             "result, stops at the first failure, the client gets the last "
+             "result or the error resolution, and no after hook runs outside "
+             "the loop (induction over the hook lists). Correspondence of "
+             "traces + trace oracle from the property text.",
+        design="7/C03",
+        note="Same model as C01 (model/Dispatch.v); static file/directory "
+             "leaves are one abstract leaf here and exercised in C12.",
+        technique="Coq proof (induction over hook lists) + vm_compute "
+                  "correspondence of self-recorded traces"),
+    "C04": dict(
+        text="Theorems: status resolution = user handler for (s,method) with "
+             "its result interpreted like an endpoint result, else built-in "
+             "page, else 501; abort(response) delivered exactly; the "
+             "exception handler used is the first in registration order that "
+             "matches class and method (characterisation iff); handler "
+             "failures degrade to the 500 page; the answer before the after "
+             "hooks does not depend on them. Correspondence + oracle over "
+             "abort codes x handler shapes x registration orders x after "
+             "hooks, and a with/without-after-hooks comparison.",
+        design="7/C04",
+        note="Same model as C01; isinstance and the built-in table are "
+             "parameters of the theorems; known finding abort-200-is-204.",
+        technique="Coq proof (case analysis, list induction) + vm_compute "
+                  "correspondence"),
+    "C05": dict(
+        text="Theorems: to_response/make_response for each return shape "
+             "(text -> UTF-8 bytes, bytes verbatim, dict/list -> JSON text "
+             "incl. {} and [], None -> 204 or given status, iterable -> its "
+             "chunks in order, 4-tuple sets exactly body/type/headers/status, "
+             "other values -> ResponseError -> 500 resolution) and header "
+             "emission: every header on the object is emitted unchanged and "
+             "in order for every answering class, only Content-Type/-Length "
+             "are appended and only when absent. Correspondence + decode "
+             "oracle + 12 response classes x header sets.",
+        design="7/C05",
+        note="json.dumps/loads are CPython's (the model takes the dumps "
+             "text); UTF-8 encoder re-implemented in the model and compared "
+             "differentially.",
+        technique="Coq proof (computation lemmas over the shape dispatch) + "
+                  "vm_compute correspondence"),
+    "C19": dict(
+        text="Theorems: for EVERY sequence of registration/removal calls the "
+             "model's views equal those of a declarative registry (map (kind, "
+             "key, method bit) -> handler, two hook lists) and outcomes agree "
+             "(simulation by induction over the call list); pop removes "
+             "exactly the addressed entry and leaves everything else; pop of "
+             "something absent raises and changes nothing; hook lists are "
+             "duplicate-free after every history; a mask registers exactly "
+             "its bits. Correspondence on exhaustive call sequences + "
+             "reference registry + probe dispatch.",
+        design="7/C19",
+        note="Handlers, paths, codes and classes are identifiers; a group "
+             "uri is identified with its compiled pattern; is_route with an "
+             "empty method mask is refuted (outside the quantifier).",
+        technique="Coq proof (refinement by induction over operation "
+                  "sequences) + vm_compute correspondence"),
     "C06": dict(
         text="Theorems over the model of Response/FileObjResponse/"
              "GeneratorResponse: for EVERY history of write()/.data calls the "
